@@ -656,6 +656,7 @@ func (u *Unit) execReturn(st *State, x *ast.ReturnStmt) []*State {
 		return []*State{st}
 	}
 	st.retSite = u.retOrd[x]
+	u.returnAsserts(st, x)
 	if len(x.Results) == 0 {
 		// named results
 		st.rets = nil
@@ -1262,5 +1263,23 @@ func (u *Unit) ghostSpawn(st *State, x *ast.GoStmt) {
 			h := u.heapGet(st, "G!spawned", SBool)
 			u.heapSet(st, "G!spawned", SBool, app("store", h, a.S, "true"))
 		}
+	}
+}
+
+// returnAsserts: `at return <n> assert <expr>` -- evaluated over the locals just before return statement n.
+func (u *Unit) returnAsserts(st *State, x *ast.ReturnStmt) {
+	if u.ct == nil || len(u.ct.CallAsserts) == 0 || u.quiet > 0 {
+		return
+	}
+	key := fmt.Sprintf("return#%d", u.retOrd[x])
+	for _, ca := range u.ct.CallAsserts {
+		if ca.Text != key {
+			continue
+		}
+		u.callAssertSeen[ca.N] = true
+		env := u.specEnvLocal(st, x.Pos(), 0)
+		env.what = u.name + " at " + key
+		g, q := u.evalSpecBool(st, ca.E, env, false)
+		u.oblige(st, fmt.Sprintf("at-return(%d).assert.%d", u.retOrd[x], ca.N), "return-assert", ca.E.String(), g, q)
 	}
 }
